@@ -101,6 +101,8 @@ func main() {
 		}
 		pprof.StopCPUProfile()
 		os.Exit(code)
+	case "deps":
+		os.Exit(runDeps(*repo, *prop, *timeout))
 	case "check":
 		os.Exit(runCheck(*repo, *out, *prop, *tier, *timeout, seed, *verbose, *keep))
 	default:
